@@ -199,7 +199,7 @@ class Pdelta(FilterPattern):
 
     def __embed__(self, inevent):
         if self.time > 0.0:
-            yield evt.silent(self.time, inevent)
+            inevent = yield evt.silent(self.time, inevent)
         return (yield from stm.embed(self.pattern, inevent))
 
 
